@@ -119,7 +119,7 @@ def copy_subtree(f, src, rnd=None, mutate=None):
     return r, mapping
 
 
-MUTATIONS = ["pi-target", "pi-data", "comment-text", "name", "namespace", "attr-value", "extra-attr", "text-char", "comment", "child-order", "prefix-only", "decl-only",
+MUTATIONS = ["attr-rename", "attr-rename-empty", "pi-target", "pi-data", "comment-text", "name", "namespace", "attr-value", "extra-attr", "text-char", "comment", "child-order", "prefix-only", "decl-only",
              "attr-order", "case", "spaces", "drop-comment", "none"]
 
 
@@ -159,6 +159,16 @@ def mutate(f, root, rnd):
         elif m == "namespace" and elems:
             e = rnd.choice(elems)
             f.n[e - 1]["ns"] = rnd.choice([x for x in NSS if x != f.n[e - 1]["ns"]])
+        elif m in ("attr-rename", "attr-rename-empty") and attrs:
+            # same number of attributes, one of them under another name (optionally with an empty value)
+            a = rnd.choice(attrs)
+            p = f.n[a - 1]["p"]
+            used = {(f.n[x - 1]["ns"], f.n[x - 1]["ln"]) for x in f.n[p - 1]["c"] if f.n[x - 1]["k"] == "attr"}
+            free = [(u, l) for u in NSS for l in LNS + ["d"] if (u, l) not in used]
+            if free and f.n[a - 1]["ns"] != XMLNS:
+                f.n[a - 1]["ns"], f.n[a - 1]["ln"] = rnd.choice(free)
+                if m == "attr-rename-empty":
+                    f.n[a - 1]["t"] = []
         elif m == "attr-value" and attrs:
             a = rnd.choice(attrs)
             f.n[a - 1]["t"] = f.n[a - 1]["t"] + [122]
